@@ -167,7 +167,8 @@ def _emit_all(n, tier):
     """partial evaluation of all fabricated programs, spread over processes (each rebuilds the same list)"""
     import concurrent.futures as cf
     import os
-    workers = min(12, os.cpu_count() or 2)
+    from sa.core import workers as _workers
+    workers = _workers(12)
     step = (n + workers - 1) // workers
     chunks = [(i, min(n, i + step), tier) for i in range(0, n, step)]
     res = []
@@ -307,7 +308,7 @@ void use_lcd_{j}() {{
             tu, line_map = wrap_namespaces(part, hole_type_of)
             jobs.append((tu, line_map, c0))
         import concurrent.futures as cf
-        with cf.ThreadPoolExecutor(max_workers=12) as ex:
+        with cf.ThreadPoolExecutor(max_workers=__import__('sa.core', fromlist=['workers']).workers(12)) as ex:
             outs = list(ex.map(lambda j: cxx.typecheck(j[0]), jobs))
         for (tu, line_map, c0), errs in zip(jobs, outs):
             for e in errs:
